@@ -31,9 +31,10 @@ LENGTHS = [1e-3, 1.0, 50.0]
 
 def plan(tier, seed):
     groups = []
-    Ss = [[[2, 0, 0], [0, 1, 0], [0, 0, 1]], [[2, 0, 0], [0, 2, 0], [0, 0, 2]], [[1, 1, 0], [-1, 1, 0], [0, 0, 1]], [[1, 0, 0], [0, 1, 0], [0, 0, 1]]]
+    Ss = [[[2, 0, 0], [0, 1, 0], [0, 0, 1]], [[2, 0, 0], [0, 2, 0], [0, 0, 2]], [[1, 1, 0], [-1, 1, 0], [0, 0, 1]], [[1, 0, 0], [0, 1, 0], [0, 0, 1]],
+          [[2, 1, 0], [0, 1, 0], [0, 0, 1]]]  # the last one generates another sublattice than its transpose
     if tier == "thorough":
-        Ss += [[[3, 0, 0], [0, 1, 0], [0, 0, 2]], [[2, 1, 0], [0, 1, 0], [0, 0, 1]]]
+        Ss += [[[3, 0, 0], [0, 1, 0], [0, 0, 2]], [[2, 0, 1], [0, 1, 0], [0, 0, 2]]]
     factors = [14.399652, 1.0, 2.0] if tier == "quick" else [14.399652, 1.0, 2.0, 27.211 * 0.529, 0.5]
     n = 0
     from vtk.alphabet import crystals as X
